@@ -12,7 +12,8 @@
        C15_checksum_chunks / C15_checksum_odd_chunk_refuted (view-by-view summation);
    (b) "so a packet carrying the complemented sum always verifies": C15_checksum_verifies (any buffer,
        any aligned field) and its instances C15_header_checksums_verify (IPv4 header checksum, UDP and
-       TCP CalculateChecksum with a pseudo-header partial sum);
+       TCP CalculateChecksum with a pseudo-header partial sum) and C15_encodePartial_verifies (the
+       incremental helpers IPv4.EncodePartial and TCP.EncodePartial);
    (c) "parsers of variable-length parts (TCP options) never read outside their input":
        C15_parseSynOptions_no_oob, C15_parseTCPOptions_no_oob (also: terminate);
    (d) "and recover every option an encoder produced": C15_encoders_wire_format, C15_sack_space,
@@ -177,6 +178,26 @@ Theorem C15_header_checksums_verify :
      tcp_calculateChecksum b1 partialChecksum totalLen = Some 65535).
 Proof. exact header_checksums_verify. Qed.
 Print Assumptions C15_header_checksums_verify.
+
+(* the incremental helpers: when the caller's partial checksum is the sum of the header with the
+   fields the helper writes zeroed (IPv4: total length + checksum; TCP: seq, ack, flags, window,
+   checksum, summed from the pseudo-header/payload sum q), the header they produce verifies *)
+Theorem C15_encodePartial_verifies :
+  (forall b hl bz p tl b',
+     bytes_ok b -> ipv4_headerLength b = Some hl -> 12 <= hl -> (Z.to_nat hl <= length b)%nat -> is_u16 tl ->
+     obind (ipv4_setTotalLength b 0) (fun x => ipv4_setChecksum x 0) = Some bz ->
+     ipv4_calculateChecksum bz = Some p ->
+     ipv4_encodePartial b p tl = Some b' ->
+     ipv4_totalLength b' = Some tl /\ ipv4_calculateChecksum b' = Some 65535) /\
+  (forall b d bz q p len sq ak fl wnd b',
+     bytes_ok b -> tcp_dataOffset b = Some d -> 20 <= d -> (Z.to_nat d <= length b)%nat ->
+     is_u16 q -> is_u16 len -> 0 <= sq < 2^32 -> 0 <= ak < 2^32 -> 0 <= fl < 256 -> is_u16 wnd ->
+     obind (tcp_encodeSubset b 0 0 0 0) (fun x => tcp_setChecksum x 0) = Some bz ->
+     obind (getN bz 0 (Z.to_nat d)) (fun h => Some (checksum h q)) = Some p ->
+     tcp_encodePartial b p len sq ak fl wnd = Some b' ->
+     tcp_calculateChecksum b' q len = Some 65535).
+Proof. exact encodePartial_verify. Qed.
+Print Assumptions C15_encodePartial_verifies.
 
 (* ------------------------------------------------------------------ (e), (f): one theorem per header:
    round trip /\ accessors = RFC reader on every byte string /\ encoded bytes read by the RFC reader *)
